@@ -1,6 +1,7 @@
 import Lean.Data.Json
 import Pdlv.Json
 import Pdlv.Enum
+import Pdlv.Resolve
 
 namespace Pdlv.Driver
 open Lean (Json)
@@ -64,6 +65,50 @@ def enumEval (f : File) (id : String) (xs : List Nat) : Except String Json := do
         ("py", pyJson (Enum.pyFromInt e x)),
         ("cxx", Json.bool (Enum.cxxIsValid e x))]).toArray
 
+partial def valueOfJson : Json → Except String Value
+  | .null => pure .null
+  | .num n => if n.exponent = 0 ∧ n.mantissa ≥ 0 then pure (.int n.mantissa.toNat) else throw "non-natural number"
+  | .arr a => do pure (.arr (← a.toList.mapM valueOfJson))
+  | .obj o => do
+    let kvs ← o.toList.mapM fun (k, v) => do pure (k, ← valueOfJson v)
+    pure (.obj kvs)
+  | .bool b => pure (.int (if b then 1 else 0))
+  | .str _ => throw "string value"
+
+partial def jsonOfValue : Value → Json
+  | .null => .null
+  | .int n => Json.num n
+  | .arr vs => Json.arr (vs.map jsonOfValue).toArray
+  | .obj fs => Json.mkObj (fs.map fun (k, v) => (k, jsonOfValue v))
+
+def decErrName : DecErr → String
+  | .unwrap => "UnwrapError" | .fixedValue => "FixedValueError" | .length => "LengthError"
+  | .arraySize => "ArraySizeError" | .enumValue => "EnumValueError"
+  | .constraintValue => "ConstraintValueError" | .trailingBytes => "TrailingBytesError"
+  | .trailingBytesInArray => "TrailingBytesInArray"
+
+def encErrName : EncErr → String
+  | .sizeOverflow => "SizeOverflow" | .countOverflow => "CountOverflow"
+  | .invalidScalarValue => "InvalidScalarValue" | .invalidArrayElementSize => "InvalidArrayElementSize"
+  | .inconsistentConditionValue => "InconsistentConditionValue"
+
+def hazardName : Hazard → String
+  | .mulOverflow => "mulOverflow" | .readOOB => "readOOB" | .chunksZero => "chunksZero"
+  | .remZero => "remZero" | .sliceOOB => "sliceOOB" | .nonTermination => "nonTermination"
+  | .badValue => "badValue" | .badLayout => "badLayout" | .subOverflow => "subOverflow"
+
+def decOut (r : Dec (Value × Bytes)) : Json :=
+  match r with
+  | .ok (v, rest) => Json.mkObj [("r", "ok"), ("value", jsonOfValue v), ("rest", Json.num rest.length)]
+  | .err e => Json.mkObj [("r", "err"), ("e", Json.str (decErrName e))]
+  | .panic h => Json.mkObj [("r", "panic"), ("h", Json.str (hazardName h))]
+
+def encOut (r : Enc Bytes) : Json :=
+  match r with
+  | .ok bs => Json.mkObj [("r", "ok"), ("hex", Json.str bs.toHex)]
+  | .err e => Json.mkObj [("r", "err"), ("e", Json.str (encErrName e))]
+  | .panic h => Json.mkObj [("r", "panic"), ("h", Json.str (hazardName h))]
+
 def getFile (st : State) : Except String File :=
   match st.file with
   | some f => pure f
@@ -86,6 +131,41 @@ def handle (st : State) (req : Json) : Except String (State × Json) := do
     let f ← getFile st
     let r ← enumEval f (← J.str req "id") (← natList req "xs")
     pure (st, Json.mkObj [("status", "ok"), ("results", r)])
+  | "types" =>
+    -- which declarations the Rust model supports
+    let f ← getFile st
+    let names := f.decls.filterMap fun d => match d.desc with
+      | .packet id .. | .struct id .. => some id
+      | _ => none
+    let js := names.map fun n => Json.mkObj [("id", Json.str n), ("ok", Json.bool (Resolve.resolve f n).isSome)]
+    pure (st, Json.mkObj [("status", "ok"), ("types", Json.arr js.toArray)])
+  | "wire" =>
+    -- {"op":"wire","type":T,"cases":[{"k":"dec","hex":..}|{"k":"decfull","hex":..}|{"k":"enc","v":..}|{"k":"len","v":..}]}
+    let f ← getFile st
+    let ty ← J.str req "type"
+    match Resolve.resolve f ty with
+    | none => pure (st, Json.mkObj [("status", "unsupported")])
+    | some b =>
+      let cases ← J.arr req "cases"
+      let outs ← cases.mapM fun c => do
+        let k ← J.str c "k"
+        match k with
+        | "dec" =>
+          match hexToBytes (← J.str c "hex").toList with
+          | none => throw "bad hex"
+          | some bs => pure (decOut (decBody f.endian b bs))
+        | "decfull" =>
+          match hexToBytes (← J.str c "hex").toList with
+          | none => throw "bad hex"
+          | some bs => pure (decOut ((decodeFull f.endian b bs).bind fun v => .ok (v, [])))
+        | "enc" =>
+          let v ← valueOfJson (← c.getObjVal? "v")
+          pure (encOut (encBody f.endian b v))
+        | "len" =>
+          let v ← valueOfJson (← c.getObjVal? "v")
+          pure (Json.mkObj [("r", "ok"), ("len", Json.num (lenBody b v))])
+        | _ => throw s!"unknown case kind {k}"
+      pure (st, Json.mkObj [("status", "ok"), ("out", Json.arr outs.toArray)])
   | _ => throw s!"unknown op {op}"
 
 partial def loop (h : IO.FS.Stream) (out : IO.FS.Stream) (st : State) : IO Unit := do
